@@ -1099,8 +1099,13 @@ class Explorer:
                             break
                     m.step_block(st)
                     self.ntrans += 1
-                    if self.ntrans % 2000 == 0 and time.time() - t0 > self.max_seconds:
-                        raise Budget("exploration budget exceeded (%d states, %d transitions)" % (self.nstates, self.ntrans))
+                    if self.ntrans % 2000 == 0:
+                        if time.time() - t0 > self.max_seconds:
+                            raise Budget("exploration budget exceeded (%d states, %d transitions)" % (self.nstates, self.ntrans))
+                        if getattr(self, "max_rss_kb", None):
+                            import resource
+                            if resource.getrusage(resource.RUSAGE_SELF).ru_maxrss > self.max_rss_kb:
+                                raise Budget("exploration budget exceeded (memory, %d states)" % self.nstates)
                     if st.done is not None:
                         self.finish(st)
                         break
